@@ -1213,7 +1213,8 @@ void KMeans(matrix* m,
   UIVectorResize(cluster_labels, m->row);
   
   it = 0;
-  while(shouldStop(centroids, oldcentroids, it, 100) == 0)
+  /* the first pass always runs: before it, oldcentroids holds zeros, not centroids of a previous pass */
+  while(it == 0 || shouldStop(centroids, oldcentroids, it, 100) == 0)
   {
     #ifdef DEBUG
     clock_t t = clock();
